@@ -1,0 +1,158 @@
+//go:build verif
+
+// Contracts for the deductive verifier in /verif (govc). Comments only.
+
+package h2
+
+// ---- queued frames: flow-control size per implementation ----
+
+//@ func (*queuedDataFrame).flowControlSize
+//@ property C09
+//@ requires f != nil
+//@ pure
+//@ ensures result == len(f.data) && result >= 0
+
+//@ func (*queuedHeaderFrame).flowControlSize, (*queuedPushPromiseFrame).flowControlSize, (*queuedPriorityFrame).flowControlSize, (*queuedRSTStreamFrame).flowControlSize
+//@ property C09
+//@ pure
+//@ ensures result == 0
+
+// ---- per-stream output buffer ----
+
+// bufWF: the queue is a well-formed FIFO of queuedFrame values.
+//@ pred bufWF(w *outputBuffer) = listWF(w.queue) && forall i int :: qlo(w.queue) <= i && i < qhi(w.queue) ==> qelem(w.queue, i).Value is queuedFrame
+
+//@ func (*outputBuffer).enqueue
+//@ property C09 C10
+//@ requires w != nil && f != nil && bufWF(w)
+//@ modifies qhi(w.queue), qelem(w.queue, qhi(w.queue))
+//@ ensures bufWF(w)
+//@ ensures qhi(w.queue) == old(qhi(w.queue)) + 1 && qlo(w.queue) == old(qlo(w.queue))
+//@ ensures qelem(w.queue, old(qhi(w.queue))).Value == f
+//@ ensures forall i int :: qlo(w.queue) <= i && i < old(qhi(w.queue)) ==> qelem(w.queue, i) == old(qelem(w.queue, i))
+
+// emitEligibleFrames (C09 gate, C10 order):
+//  - credit conservation: what leaves the queue is debited from both windows, nothing else is;
+//  - never beyond credit: if anything flow-controlled was sent, both windows are still >= 0;
+//  - FIFO: exactly the frames at the old head positions were sent, in order;
+//  - nothing stranded: on return the queue is empty or its head does not fit a window.
+//@ func (*outputBuffer).emitEligibleFrames
+//@ property C09 C10
+//@ requires w != nil && connectionWindowSize != nil && bufWF(w)
+//@ modifies w.windowSize, *connectionWindowSize, qlo(w.queue), nsent(output), outseq, sentAll(output)
+//@ ensures bufWF(w)
+//@ ensures qhi(w.queue) == old(qhi(w.queue)) && qlo(w.queue) >= old(qlo(w.queue)) && qlo(w.queue) <= qhi(w.queue)
+//@ ensures w.windowSize + sentAll(output) == old(w.windowSize) + old(sentAll(output))
+//@ ensures *connectionWindowSize + sentAll(output) == old(*connectionWindowSize) + old(sentAll(output))
+//@ ensures sentAll(output) >= old(sentAll(output))
+//@ ensures sentAll(output) > old(sentAll(output)) ==> w.windowSize >= 0 && *connectionWindowSize >= 0
+//@ ensures nsent(output) == old(nsent(output)) + qlo(w.queue) - old(qlo(w.queue))
+//@ ensures forall i int :: old(qlo(w.queue)) <= i && i < qlo(w.queue) ==> outseq(output, old(nsent(output)) + i - old(qlo(w.queue))) == qelem(w.queue, i).Value
+//@ ensures forall k int :: k < old(nsent(output)) ==> outseq(output, k) == old(outseq(output, k))
+//@ ensures qlo(w.queue) < qhi(w.queue) ==> fcs(qelem(w.queue, qlo(w.queue)).Value) > *connectionWindowSize || fcs(qelem(w.queue, qlo(w.queue)).Value) > w.windowSize
+//@ loop 0:
+//@   invariant bufWF(w) && qhi(w.queue) == old(qhi(w.queue)) && old(qlo(w.queue)) <= qlo(w.queue) && qlo(w.queue) <= qhi(w.queue)
+//@   invariant e == nil ==> qlo(w.queue) == qhi(w.queue)
+//@   invariant e != nil ==> qlo(w.queue) < qhi(w.queue) && e == qelem(w.queue, qlo(w.queue))
+//@   invariant w.windowSize + sentAll(output) == old(w.windowSize) + old(sentAll(output))
+//@   invariant *connectionWindowSize + sentAll(output) == old(*connectionWindowSize) + old(sentAll(output))
+//@   invariant sentAll(output) >= old(sentAll(output))
+//@   invariant sentAll(output) > old(sentAll(output)) ==> w.windowSize >= 0 && *connectionWindowSize >= 0
+//@   invariant nsent(output) == old(nsent(output)) + qlo(w.queue) - old(qlo(w.queue))
+//@   invariant forall i int :: old(qlo(w.queue)) <= i && i < qlo(w.queue) ==> outseq(output, old(nsent(output)) + i - old(qlo(w.queue))) == qelem(w.queue, i).Value
+//@   invariant forall k int :: k < old(nsent(output)) ==> outseq(output, k) == old(outseq(output, k))
+//@   invariant forall i int :: old(qlo(w.queue)) <= i && i < qhi(w.queue) ==> qelem(w.queue, i) == old(qelem(w.queue, i)) && qelem(w.queue, i).Value == old(qelem(w.queue, i).Value)
+
+// ---- relay: windows, credit and quiescence ----
+
+// blocked: the queue is empty or its head does not fit under one of the two windows.
+//@ pred blocked(w *outputBuffer, cws int) = qlo(w.queue) < qhi(w.queue) ==> fcs(qelem(w.queue, qlo(w.queue)).Value) > cws || fcs(qelem(w.queue, qlo(w.queue)).Value) > w.windowSize
+//@ pred relayWF(r *relay) = r.outputBuffers != nil && forall k uint32 :: k in r.outputBuffers ==> isobj(r.outputBuffers[k]) && allocated(r.outputBuffers[k]) && bufWF(r.outputBuffers[k])
+// quiescent (L9.4 / C10 "nothing stranded"): no stream has a head-of-queue frame that both windows permit.
+//@ pred quiescent(r *relay) = forall k uint32 :: k in r.outputBuffers ==> blocked(r.outputBuffers[k], r.connectionWindowSize)
+
+//@ func (*relay).outputBuffer
+//@ property C09 C10
+//@ requires r != nil && relayWF(r)
+//@ modifies r.outputBuffers[*]
+//@ ensures result != nil && streamID in r.outputBuffers && r.outputBuffers[streamID] == result
+//@ ensures relayWF(r)
+//@ ensures old(streamID in r.outputBuffers) ==> result == old(r.outputBuffers[streamID])
+//@ ensures !old(streamID in r.outputBuffers) ==> fresh(result) && result.windowSize == r.initialWindowSize && qlo(result.queue) == qhi(result.queue)
+//@ ensures forall k uint32 :: k != streamID ==> (k in r.outputBuffers) == old(k in r.outputBuffers) && r.outputBuffers[k] == old(r.outputBuffers[k])
+
+// relayInj: distinct stream ids have distinct buffers.
+//@ pred relayInj(r *relay) = forall k1 uint32, k2 uint32 :: k1 in r.outputBuffers && k2 in r.outputBuffers && k1 != k2 ==> r.outputBuffers[k1] != r.outputBuffers[k2]
+
+// Re-scan of every stream after a window grew: nothing deliverable is left
+// behind (quiescent), the connection window is debited by exactly what was
+// sent, nothing flow-controlled is sent beyond it.
+//@ func (*relay).sendQueuedFramesUnderWindowSize
+//@ property C09 C10
+//@ requires r != nil && relayWF(r)
+//@ modifies outputBuffer.windowSize, r.connectionWindowSize, qlo, nsent(r.output), outseq, sentAll(r.output)
+//@ ensures relayWF(r) && quiescent(r)
+//@ ensures r.connectionWindowSize + sentAll(r.output) == old(r.connectionWindowSize) + old(sentAll(r.output))
+//@ ensures sentAll(r.output) >= old(sentAll(r.output))
+//@ ensures sentAll(r.output) > old(sentAll(r.output)) ==> r.connectionWindowSize >= 0
+//@ ensures forall k uint32 :: k in r.outputBuffers ==> r.outputBuffers[k].windowSize <= old(r.outputBuffers[k].windowSize)
+//@ ensures forall k uint32 :: k in r.outputBuffers && r.outputBuffers[k].windowSize < old(r.outputBuffers[k].windowSize) ==> r.outputBuffers[k].windowSize >= 0
+//@ loop 0:
+//@   invariant relayWF(r)
+//@   invariant r.connectionWindowSize + sentAll(r.output) == old(r.connectionWindowSize) + old(sentAll(r.output))
+//@   invariant sentAll(r.output) >= old(sentAll(r.output))
+//@   invariant sentAll(r.output) > old(sentAll(r.output)) ==> r.connectionWindowSize >= 0
+//@   invariant forall k uint32 :: visited(k) && k in r.outputBuffers ==> blocked(r.outputBuffers[k], r.connectionWindowSize)
+//@   invariant forall k uint32 :: k in r.outputBuffers ==> r.outputBuffers[k].windowSize <= old(r.outputBuffers[k].windowSize)
+//@   invariant forall k uint32 :: k in r.outputBuffers && r.outputBuffers[k].windowSize < old(r.outputBuffers[k].windowSize) ==> r.outputBuffers[k].windowSize >= 0
+
+// Enqueue one frame on its stream and emit what the windows permit.
+//@ func (*relay).enqueueFrame
+//@ property C09 C10
+//@ requires r != nil && f != nil && relayWF(r) && quiescent(r)
+//@ modifies r.outputBuffers[*], outputBuffer.windowSize, r.connectionWindowSize, qlo, qhi, qelem, nsent(r.output), outseq, sentAll(r.output)
+//@ ensures relayWF(r) && quiescent(r)
+//@ ensures r.connectionWindowSize + sentAll(r.output) == old(r.connectionWindowSize) + old(sentAll(r.output))
+//@ ensures sentAll(r.output) >= old(sentAll(r.output))
+//@ ensures sentAll(r.output) > old(sentAll(r.output)) ==> r.connectionWindowSize >= 0
+
+// WINDOW_UPDATE from the receiver: the addressed window grows by exactly the
+// increment (stream 0 = the connection window), every frame that became
+// eligible is sent and debited, nothing is sent beyond the credit.
+//@ func (*relay).updateWindow
+//@ property C09 C10
+//@ requires r != nil && f != nil && relayWF(r) && relayInj(r) && quiescent(r)
+//@ modifies r.outputBuffers[*], outputBuffer.windowSize, r.connectionWindowSize, qlo, nsent(r.output), outseq, sentAll(r.output)
+//@ ensures relayWF(r) && quiescent(r)
+//@ ensures f.StreamID == 0 ==> r.connectionWindowSize + sentAll(r.output) == old(r.connectionWindowSize) + old(sentAll(r.output)) + f.Increment
+//@ ensures f.StreamID != 0 ==> r.connectionWindowSize + sentAll(r.output) == old(r.connectionWindowSize) + old(sentAll(r.output))
+//@ ensures sentAll(r.output) >= old(sentAll(r.output))
+//@ ensures sentAll(r.output) > old(sentAll(r.output)) ==> r.connectionWindowSize >= 0
+//@ ensures f.StreamID != 0 && old(f.StreamID in r.outputBuffers) ==> r.outputBuffers[f.StreamID] == old(r.outputBuffers[f.StreamID]) && r.outputBuffers[f.StreamID].windowSize + sentAll(r.output) == old(r.outputBuffers[f.StreamID].windowSize) + f.Increment + old(sentAll(r.output))
+//@ ensures f.StreamID != 0 && !old(f.StreamID in r.outputBuffers) ==> r.outputBuffers[f.StreamID].windowSize + sentAll(r.output) == r.initialWindowSize + f.Increment + old(sentAll(r.output))
+//@ ensures f.StreamID != 0 && sentAll(r.output) > old(sentAll(r.output)) ==> r.outputBuffers[f.StreamID].windowSize >= 0
+//@ ensures forall k uint32 :: f.StreamID != 0 && k != f.StreamID && k in r.outputBuffers ==> old(k in r.outputBuffers) && r.outputBuffers[k] == old(r.outputBuffers[k]) && r.outputBuffers[k].windowSize == old(r.outputBuffers[k].windowSize)
+
+// SETTINGS_INITIAL_WINDOW_SIZE from the receiver: every open stream window
+// moves by the same delta (possibly below zero), the connection window does
+// not, new streams start at the new value.
+//@ func (*relay).updateInitialWindowSize
+//@ property C09 C10
+//@ requires r != nil && relayWF(r) && relayInj(r)
+//@ modifies r.initialWindowSize, outputBuffer.windowSize, r.connectionWindowSize, qlo, nsent(r.output), outseq, sentAll(r.output)
+//@ ensures r.initialWindowSize == v
+//@ ensures relayWF(r) && quiescent(r)
+//@ ensures r.connectionWindowSize + sentAll(r.output) == old(r.connectionWindowSize) + old(sentAll(r.output))
+//@ ensures sentAll(r.output) > old(sentAll(r.output)) ==> r.connectionWindowSize >= 0
+//@ ensures forall k uint32 :: k in r.outputBuffers ==> r.outputBuffers[k].windowSize <= old(r.outputBuffers[k].windowSize) + v - old(r.initialWindowSize)
+//@ ensures forall k uint32 :: k in r.outputBuffers && r.outputBuffers[k].windowSize < old(r.outputBuffers[k].windowSize) + v - old(r.initialWindowSize) ==> r.outputBuffers[k].windowSize >= 0
+//@ loop 0:
+//@   invariant relayWF(r) && relayInj(r) && r.initialWindowSize == v
+//@   invariant r.connectionWindowSize == old(r.connectionWindowSize) && sentAll(r.output) == old(sentAll(r.output))
+//@   invariant forall k uint32 :: k in r.outputBuffers ==> r.outputBuffers[k].windowSize == old(r.outputBuffers[k].windowSize) + ite(visited(k), v - old(r.initialWindowSize), 0)
+
+//@ func (*relay).updateMaxFrameSize
+//@ property C09
+//@ requires r != nil
+//@ modifies r.maxFrameSize
+//@ ensures r.maxFrameSize == v
